@@ -480,6 +480,40 @@ def r15_7(ctx: Ctx) -> None:
                "contained genes)", form=why)
 
 
+def r15_8(ctx: Ctx) -> None:
+    """ who splits a wrapped ORF at the origin: scan_orfs lists the two parts in reading order itself (R15.5).  The
+        shared shift helper (Location.clone_with_offset / offset_location with a wrap point) splits a part that lands on
+        the origin into [start, L) + [0, end) whatever the strand - reading order on the forward strand only - so an ORF
+        location of either strand must not be wrapped by it unless the helper itself orders the halves by strand. """
+    from ..flow import fact_texts
+    LOCS = "antismash/common/secmet/locations.py"
+    helper = ctx.fn(LOCS, "offset_location")
+    hcfg = CFG(helper)
+    strand_aware = any((last_attr(c) == "reverse" or "reversed" == call_name(c)) and any("strand" in f for f in fact_texts(hcfg, c))
+                       for c in calls(helper))
+    count = 0
+    for qual in ("scan_orfs", "find_all_orfs"):
+        func = ctx.fn(ORF, qual)
+        cfg = CFG(func)
+        for call in calls(func):
+            name = last_attr(call) or call_name(call)
+            if name not in ("clone_with_offset", "offset_location"):
+                continue
+            wrap = kwarg(call, "wrap_point")
+            if wrap is None or (isinstance(wrap, ast.Constant) and wrap.value is None):
+                continue
+            count += 1
+            forward_only = any(f in fact_texts(cfg, call) for f in ("direction == 1", "strand == 1", "direction > 0"))
+            ok = strand_aware or forward_only
+            ctx.ob("R15.8", ORF, call, qual, f"wrap delegated to the shift helper#{count}", ok,
+                   "an ORF that wraps over the origin is split into its two parts in reading order for its strand; the shift "
+                   "helper splits in coordinate order, which swaps the halves of a reverse-strand ORF (its extracted sequence "
+                   "and translation are then wrong)", form=txt(call)[:100])
+    if count == 0:
+        ctx.ob("R15.8", ORF, ctx.fn(ORF, "scan_orfs"), "scan_orfs", "wrap not delegated", True,
+               "scan_orfs wraps and splits ORF coordinates itself (see R15.2 / R15.5)", form="")
+
+
 def run(ctx: Ctx) -> None:
     ctx.rule("R15.7", "each gap search gets the genes of the interval it searches", floor=3)
     r15_7(ctx)
@@ -488,6 +522,8 @@ def run(ctx: Ctx) -> None:
     ctx.rule("R15.3", "codon tables, frames, write-once start state", floor=9)
     ctx.rule("R15.4", "the gap finder advances its frontier only under a test on the frontier", floor=5)
     ctx.rule("R15.5", "parts of an origin-crossing ORF are in reading order for the strand", floor=2)
+    ctx.rule("R15.8", "a wrapped ORF is not split by the strand-blind shift helper", floor=1)
+    r15_8(ctx)
     r15_1_2(ctx)
     r15_3(ctx)
     r15_4(ctx)
